@@ -133,13 +133,14 @@ def runRec (c : RecCfg Nat Nat Nat) (nfiles : Nat) : List (REvent Nat) → Files
 
 /-! concurrency -/
 
-inductive MAct | one (a : Act) | finish (p : Nat)
+inductive MAct | one (a : Act) | finish (p : Nat) | writeTo (p k : Nat)
 
 def parseMAct (s : String) : Option MAct :=
   match words s with
   | ["s", p] => do some (.one (.step (← p.toNat?)))
   | ["k", p] => do some (.one (.kill (← p.toNat?)))
   | ["S", p] => do some (.finish (← p.toNat?))
+  | ["W", p, k] => do some (.writeTo (← p.toNat?) (← k.toNat?))
   | _ => none
 
 def busy : PState Nat Nat Nat → Bool
@@ -150,6 +151,15 @@ def busy : PState Nat Nat Nat → Bool
 def finishP (c : Cfg Nat Nat Nat) (lock : Bool) (p : Nat) : Nat → CState Nat Nat Nat → CState Nat Nat Nat
   | 0, s => s
   | n+1, s => if busy (s.procs p) then finishP c lock p n (act c lock s (.step p)) else s
+
+/-- run process `p` while it is computing or has written fewer than `k` bytes (bounded) -/
+def writeToP (c : Cfg Nat Nat Nat) (lock : Bool) (p k : Nat) : Nat → CState Nat Nat Nat → CState Nat Nat Nat
+  | 0, s => s
+  | n+1, s =>
+    match s.procs p with
+    | .computing => writeToP c lock p k n (act c lock s (.step p))
+    | .writing j => if j < k then writeToP c lock p k n (act c lock s (.step p)) else s
+    | _ => s
 
 def showP : PState Nat Nat Nat → String
   | .idle => "idle" | .locked => "locked" | .computing => "computing" | .writing k => s!"writing {k}"
@@ -167,6 +177,7 @@ def runC (c : Cfg Nat Nat Nat) (lock : Bool) (np : Nat) : List MAct → CState N
     let s' := match a with
       | .one a => act c lock s a
       | .finish p => finishP c lock p 1000000 s
+      | .writeTo p k => writeToP c lock p k 1000000 s
     showC np s' :: runC c lock np t s'
 
 def handle (line : String) : String :=
